@@ -468,6 +468,7 @@ func C05() *engine.Check {
 			c04RealSubZ("real-clock-zone-east-completeness", "complete", 2, 3, time.FixedZone("verif-east", 13*3600+1800), 2*time.Hour),
 			c04RealEnvSub("real-clock-hostile-environment-completeness", "complete"),
 			clockSub("C05"),
+			clockHistSub("C05"),
 		},
 		Assumptions: []string{
 			"the completeness direction of the C01-C04 universes is charged here: whenever the reference says no rule is violated the implementation must allow",
